@@ -366,6 +366,50 @@ class _DQF:
                     lines.append("dq grow %d" % mx)
             lines += ["dq drain", "dq recv", "dq msg", "dq drain"]
             out.append(("dqr:%s:%d" % (codec, k), lines))
+        # large input queues (4-8 KiB) that are enlarged while their content wraps around the storage end with more
+        # than 1 KiB on both sides (mpt_queue_align -> mpt_memrev beyond its two short-cut sizes): filled directly,
+        # and filled by the work-area retry of mpt_queue_recv after the decoder reported MissingBuffer
+        def cframe(codec, n, k):
+            m = [((k * 7 + i) % 250) + 1 for i in range(n)]
+            return (m + [0]) if codec == "command" else ref_encode(codec, m)
+        for k in range((6 if tier == "quick" else 60) * scale):
+            codec = (DECODERS + ["command"])[k % 5]
+            mx = r.choice([4096, 5000, 6144, 8192])
+            off = r.randrange(1100, mx - 1100)
+            upper = mx - off
+            if upper > 4096:
+                off = mx - r.randrange(1100, 4000); upper = mx - off
+            total = upper + r.randrange(1030, off + 1)
+            data = []
+            while len(data) < total - 120:
+                data.extend(cframe(codec, r.choice([40, 98, 200]), len(data)))
+            lines = ["dq new %s max=%d off=%d align=%d" % (codec, mx, off, r.randrange(16)),
+                     "dq feed " + gen.hexs(data), "dq recv", "dq grow %d" % (mx + r.choice([64, 1000, mx])),
+                     "dq recv", "dq recv", "dq feed " + gen.hexs(cframe(codec, 30, k)), "dq drain", "dq msg"]
+            out.append(("dqbig:%s:%d" % (codec, k), lines))
+        for k in range((3 if tier == "quick" else 24) * scale):
+            codec = ["cobs/zpe", "cobs/zpe+r"][k % 2]
+            mx = r.choice([4096, 4096, 6000])
+            lines = ["dq new %s max=%d off=0 align=%d" % (codec, mx, r.randrange(16))]
+            # delivered frames move the data start to about 1100
+            nsmall = r.randrange(11, 14)
+            for j in range(nsmall):
+                lines += ["dq feed " + gen.hexs(cframe(codec, 98, j)), "dq recv"]
+            # a frame of "one data byte + eliminated zero pair" blocks: the decoder runs out of work area, the queue
+            # hands over all its free space and is full, its content wraps
+            big = []
+            for j in range(r.randrange(300, 420)):
+                big += [0xE1, 0x41 + j % 50]
+            big += [0]
+            first = r.randrange(40, 80)
+            lines += ["dq feed " + gen.hexs(big[:first]), "dq recv", "dq grow %d" % (mx + 256), "dq recv"]
+            pos = first
+            while pos < len(big):
+                step = min(200, len(big) - pos)
+                lines += ["dq grow %d" % (mx + 256 + pos), "dq feed " + gen.hexs(big[pos:pos + step]), "dq recv"]
+                pos += step
+            lines += ["dq msg", "dq feed " + gen.hexs(cframe(codec, 30, k)), "dq drain"]
+            out.append(("dqwork:%s:%d" % (codec, k), lines))
         return out
 
     @staticmethod
